@@ -1,3 +1,4 @@
+import OrsoVerif.Generated.FrameExpr
 /-!
 # C03 — DataFrame operators as functions on a plain ordered list of rows
 
@@ -17,18 +18,40 @@ namespace Frame
 
 variable {α : Type}
 
-/-- Start index of `slice`: `offset` when non-negative, else `max (n + offset) 0`. -/
-def sliceStart (n : Nat) (offset : Int) : Nat :=
-  if offset < 0 then ((n : Int) + offset).toNat else offset.toNat
+/-- Python's resolution of a slice bound against a list of length `n`: negative bounds count from
+the end, everything is clamped into `0..n`. -/
+def pyBound (n : Nat) (i : Int) : Nat :=
+  if i < 0 then ((n : Int) + i).toNat else min i.toNat n
 
+/-- Python `rows[a:b]`. -/
+def pySlice (rows : List α) (a b : Int) : List α :=
+  (rows.drop (pyBound rows.length a)).take (pyBound rows.length b - pyBound rows.length a)
+
+/-- Python `rows[a:]`. -/
+def pySliceFrom (rows : List α) (a : Int) : List α := rows.drop (pyBound rows.length a)
+
+/-- The offset `slice` works with after its first statement: the *generated* test and replacement
+(`if offset < 0: offset = max(len(rows) + offset, 0)` in the source as it is now). -/
+def sliceOffset (n : Nat) (offset : Int) : Int :=
+  if Gen.Frame.sliceNegTest offset then Gen.Frame.sliceNegStart n offset else offset
+
+/-- `DataFrame.slice(offset, length)`: skeleton by hand, arithmetic from `Gen.Frame`. -/
 def slice (rows : List α) (offset : Int) (length : Option Nat) : List α :=
+  let off := sliceOffset rows.length offset
   match length with
-  | none => rows.drop (sliceStart rows.length offset)
-  | some l => (rows.drop (sliceStart rows.length offset)).take l
+  | none => pySliceFrom rows off
+  | some l =>
+    if Gen.Frame.sliceZeroTest l then [] else pySlice rows off (Gen.Frame.sliceStop off l)
 
-def head (rows : List α) (k : Nat) : List α := slice rows 0 (some k)
+/-- `head(k)` and `tail(k)` pass the generated arguments to `slice`. -/
+def head (rows : List α) (k : Nat) : List α :=
+  slice rows (Gen.Frame.headOffset k) (some (Gen.Frame.headLength k).toNat)
 
-def tail (rows : List α) (k : Nat) : List α := slice rows (-(k : Int)) (some k)
+def tail (rows : List α) (k : Nat) : List α :=
+  slice rows (Gen.Frame.tailOffset k) (some (Gen.Frame.tailLength k).toNat)
+
+/-- Start index of the window for a list of `n` rows (used by the specifications). -/
+def sliceStart (n : Nat) (offset : Int) : Nat := pyBound n (sliceOffset n offset)
 
 /-- Rows at the positions `i` (counted from `start`) for which `sel i` holds, in order. -/
 def pickFrom (start : Nat) (sel : Nat → Bool) : List α → List α
